@@ -30,7 +30,8 @@ def list_mutants(props=None, names=None):
 
 def apply_to_copy(mutant):
     tmp = tempfile.mkdtemp(prefix="verif-mut-")
-    shutil.copytree("/repo/src", os.path.join(tmp, "src"))
+    # VERIF_BASE_SRC: a snapshot of /repo/src (soaks that must not see temporary patches in /repo)
+    shutil.copytree(os.environ.get("VERIF_BASE_SRC") or "/repo/src", os.path.join(tmp, "src"))
     for rel, old, new in mutant["edits"]:
         path = os.path.join(tmp, "src", rel)
         text = open(path).read()
